@@ -5,7 +5,7 @@ package main
 // webui.MailboxMessage handler through a stub manager, and the `html` / `text` members of the
 // JSON it renders are what the oracle judges:
 //
-//	=> <json.text> <json.html == sanitize.HTML(msg.HTML())> <msg.Text()> <URL intervals> <report(json.html)>
+//	=> <json.text> <json.html == sanitize.HTML(msg.HTML())> <msg.Text()> <URL intervals> <report(json.html)> <start tags of json.html>
 
 import (
 	"encoding/json"
@@ -77,9 +77,9 @@ func execMsg(in []string) []string {
 	if msg.HTML() != "" {
 		w, err := sanitize.HTML(msg.HTML())
 		if err != nil {
-			return []string{"S" + vh.HS(js.Text), "ERR", vh.HS(msg.Text()), intervals(msg.Text()), "-"}
+			return []string{"S" + vh.HS(js.Text), "ERR", vh.HS(msg.Text()), intervals(msg.Text()), "-", "-"}
 		}
 		want = w
 	}
-	return []string{"S" + vh.HS(js.Text), vh.B(js.HTML == want), vh.HS(msg.Text()), intervals(msg.Text()), report(js.HTML)}
+	return []string{"S" + vh.HS(js.Text), vh.B(js.HTML == want), vh.HS(msg.Text()), intervals(msg.Text()), report(js.HTML), finalTags(js.HTML)}
 }
